@@ -137,6 +137,35 @@ def check(chk, lib, root):
         if cls is None:
             chk.broke("set %s: class not resolvable from accessors" % "::".join(path))
             continue
+        # the deprecated visit_set entry point: one visitor(this-><choice>(), "<choice>") call per choice, in schema order -
+        # the value reported for a choice is the named getter's (which the rows below tie to the XML index)
+        vs = [f for f in lib.facts["functions"] if (f.get("qn") or "").startswith(cls + "::operator()") and f.get("body") is not None
+              and (f.get("params") or [{}])[0].get("t", "").endswith("visit_set_tag") and len(f.get("params") or []) == 2]
+        if vs:
+            got = []
+            for x in walk(vs[0]["body"]):
+                a = x.get("args") or []
+                if x.get("k") in ("CallExpr", "CXXOperatorCallExpr") and len(a) >= 2:
+                    lit = [z.get("str") for z in walk(a[-1]) if "str" in z]
+                    if not lit:
+                        continue
+                    first = a[-2]
+                    getter = (first.get("callee") or {}).get("name") if first.get("k") == "CXXMemberCallExpr" and not (first.get("args") or []) else None
+                    if getter is None and any("get_bit_tag" in (z.get("t") or "") for z in walk(first)):
+                        # a direct read of a constant bit index is the same value as the getter of the choice with that index
+                        idxs = [int(z["cv"]) for z in walk(first) if z.get("k") == "IntegerLiteral" and str(z.get("cv", "")).isdigit()]
+                        byidx = {c_.index: c_.name for c_ in st.choices}
+                        if len(idxs) == 1 and idxs[0] in byidx:
+                            getter = byidx[idxs[0]]
+                    got.append((getter, lit[0]))
+            want = [(c_.name, c_.name) for c_ in st.choices]
+            vkey = "visit_set:" + "::".join(path)
+            if got != want:
+                chk.violation("SET", vkey, where(vs[0]),
+                              "visit_set of %s reports %s, expected the named getter of each choice with its name, in schema order: %s"
+                              % ("::".join(path), got[:6], want[:6]))
+            else:
+                chk.ok("SET", vkey, {"choices": len(want)})
         for ch in st.choices:
             cands = [f for f in lib.eng.fns.values() if f.get("cls") == cls and f["name"] == ch.name]
             getters = [f for f in cands if not f.get("params")]
